@@ -31,6 +31,10 @@ type histPlan struct {
 	Init     []string      `json:"init"`
 	Max      int           `json:"max"`
 	Sessions []histSession `json:"sessions"`
+	// LongAt/LongLen: the initial entry number LongAt-1 is LongLen bytes long (a pasted query of an earlier
+	// version, a file written by something else): a line length no reader may choke on
+	LongAt  int `json:"long_at,omitempty"`
+	LongLen int `json:"long_len,omitempty"`
 }
 
 func genHistPlan(r *zsim.Rng) *histPlan {
@@ -63,6 +67,10 @@ func genHistPlan(r *zsim.Rng) *histPlan {
 		for i := 0; i < n; i++ {
 			p.Init = append(p.Init, word())
 		}
+	}
+	if len(p.Init) > 0 && r.Chance(1, 8) {
+		p.LongAt = 1 + r.Intn(len(p.Init))
+		p.LongLen = []int{4095, 4096, 65535, 65536, 70000, 200000}[r.Intn(6)]
 	}
 	ns := r.Range(1, 8)
 	for s := 0; s < ns; s++ {
@@ -101,8 +109,13 @@ func runHist(c *runCtx) {
 	defer os.RemoveAll(dir)
 	path := filepath.Join(dir, "history")
 	var init []string
-	for _, l := range plan.Init {
+	for i, l := range plan.Init {
 		l = strings.ReplaceAll(l, "\n", "")
+		if i == plan.LongAt-1 && plan.LongLen > 0 {
+			l += strings.Repeat("x", clampInt(plan.LongLen, 1, 1<<20))
+			l = l[:clampInt(plan.LongLen, 1, 1<<20)]
+			c.count("probe.long_entry", 1)
+		}
 		if l != "" {
 			init = append(init, l)
 		}
@@ -154,7 +167,7 @@ func runHist(c *runCtx) {
 		// the new session must load exactly the entries of the file
 		loaded := h.lines[:len(h.lines)-1]
 		if strings.Join(loaded, "\n") != strings.Join(E, "\n") || len(loaded) != len(E) {
-			c.violate("hist.load", "session %d loaded %q, file holds %q", si, loaded, E)
+			c.violate("hist.load", "session %d loaded %q, file holds %q", si, clipAll(loaded), clipAll(E))
 			return
 		}
 		// navigation model
@@ -188,7 +201,7 @@ func runHist(c *runCtx) {
 					pos--
 				}
 				if got != cur() {
-					c.violate("hist.navigate", "session %d step %d: previous() returned %q, model %q (pos %d of %d)", si, ki, got, cur(), pos, len(E))
+					c.violate("hist.navigate", "session %d step %d: previous() returned %q, model %q (pos %d of %d)", si, ki, clip([]byte(got)), clip([]byte(cur())), pos, len(E))
 					return
 				}
 				input = got
@@ -203,7 +216,7 @@ func runHist(c *runCtx) {
 					pos++
 				}
 				if got != cur() {
-					c.violate("hist.navigate", "session %d step %d: next() returned %q, model %q (pos %d of %d)", si, ki, got, cur(), pos, len(E))
+					c.violate("hist.navigate", "session %d step %d: next() returned %q, model %q (pos %d of %d)", si, ki, clip([]byte(got)), clip([]byte(cur())), pos, len(E))
 					return
 				}
 				input = got
@@ -244,4 +257,12 @@ func runHist(c *runCtx) {
 
 func init() {
 	scenarios["hist"] = scenario{bubble: false, run: runHist}
+}
+
+func clipAll(ss []string) []string {
+	out := make([]string, len(ss))
+	for i, s := range ss {
+		out[i] = clip([]byte(s))
+	}
+	return out
 }
